@@ -4,7 +4,68 @@ From KV Require Import Base.Sx Gen.Generated Model.Chunks Proofs.ChunksP.
 Import ListNotations.
 Open Scope Z_scope.
 
+(* ---- chunk names ---- *)
+
+(* Chunk names are an injective function of (array name, chunk start indices): for ANY array names (they may contain
+   the separator), any number of dimensions (incl. 0) and any integer starts (negative, wider than the pad width).
+   The separators and the width are the ones translated from the source at this run. *)
+Theorem C07_chunk_name_injective : forall (a1 a2 : str) (s1 s2 : list Z),
+  chunk_name a1 s1 = chunk_name a2 s2 <-> (a1 = a2 /\ s1 = s2).
+Proof. exact chunk_name_inj. Qed.
+Print Assumptions C07_chunk_name_injective.
+
+(* The documented form: every index is printed in decimal, zero-padded to at least NAME_INDEX_WIDTH characters,
+   and reads back to the same integer. *)
+Theorem C07_chunk_id_documented_form : forall z,
+  cs_name_index_width <= Z.of_nat (List.length (fmt_index cs_name_index_width z))
+  /\ parse_index (fmt_index cs_name_index_width z) = z.
+Proof. exact chunk_id_documented. Qed.
+Print Assumptions C07_chunk_id_documented_form.
+
+(* the docstring example '00012_01024_00000', a 0-d chunk, a negative and an over-wide start *)
+Example C07_chunk_name_examples :
+  chunk_id_str [12; 1024; 0] = [48;48;48;49;50; 95; 48;49;48;50;52; 95; 48;48;48;48;48]
+  /\ chunk_name [120] [] = [120; 47]
+  /\ chunk_id_str [-3; 123456] = [45;48;48;48;51; 95; 49;50;51;52;53;54].
+Proof. vm_compute. auto. Qed.
+
+(* ---- tiling ---- *)
+
+(* The blocks of any chunk specification (non-negative sizes) partition the index space: every in-range index lies
+   in exactly one block. *)
+Theorem C07_blocks_tile : forall chunks p,
+  Forall (Forall (fun c => 0 <= c)) chunks -> In p (enumerate (chunks_shape chunks)) ->
+  exists b, (In b (blocks chunks) /\ contains b p = true)
+            /\ forall b', In b' (blocks chunks) /\ contains b' p = true -> b' = b.
+Proof. exact blocks_tile_lemma. Qed.
+Print Assumptions C07_blocks_tile.
+
+(* ---- completion markers ---- *)
+
 Theorem C07_mark_complete_idempotent : forall (A : Type) (st : store A) arr,
-  mark_complete (mark_complete st arr) arr = mark_complete st arr.
-Proof. exact (@mark_complete_idem). Qed.
+  mark_complete (mark_complete st arr) arr = mark_complete st arr
+  /\ is_complete (mark_complete st arr) arr = true.
+Proof. intros. split; [apply mark_complete_idem|apply is_complete_after_mark]. Qed.
 Print Assumptions C07_mark_complete_idempotent.
+
+(* marking one array complete changes neither any chunk nor the completion state of another array *)
+Theorem C07_mark_complete_frame : forall (A : Type) (st : store A) a,
+  (forall arr sl dt ho, get_chunk (mark_complete st a) arr sl dt ho = get_chunk st arr sl dt ho)
+  /\ (forall b, a <> b -> is_complete (mark_complete st a) b = is_complete st b).
+Proof. intros. split; intros; [apply mark_complete_keeps_chunks|apply is_complete_other; assumption]. Qed.
+Print Assumptions C07_mark_complete_frame.
+
+(* ---- S3 bucket-name normalisation (path component of the URL) ---- *)
+
+Theorem C07_bucket_normalise_idempotent : forall p, normalise_path (normalise_path p) = normalise_path p.
+Proof. exact normalise_idem. Qed.
+Print Assumptions C07_bucket_normalise_idempotent.
+
+(* the object key (everything after the bucket, incl. the '_' of the chunk id) is untouched; the bucket has its
+   underscores replaced and contains none afterwards *)
+Theorem C07_bucket_normalise_keeps_key : forall p,
+  path_key (normalise_path p) = path_key p
+  /\ path_bucket (normalise_path p) = replace_c cs_bucket_from cs_bucket_to (path_bucket p)
+  /\ ~ In cs_bucket_from (path_bucket (normalise_path p)).
+Proof. intro p. split; [apply normalise_keeps_key|apply normalise_bucket]. Qed.
+Print Assumptions C07_bucket_normalise_keeps_key.
